@@ -7,8 +7,12 @@ mod c11;
 mod c13;
 mod c14;
 mod c15;
+mod c16;
+mod c17;
 mod c18;
+mod c19;
 mod c20;
+mod envs;
 mod coqfmt;
 mod methods;
 mod reflect;
@@ -47,10 +51,14 @@ fn main() {
         "c14" => c14::run(&out, seed, thorough),
         "c14-probe" => c14::probe_main(),
         "c15" => c15::run(&out, seed, thorough),
+        "c16" => c16::run(&out, seed, thorough),
+        "c17" => c17::run(&out, seed, thorough),
         "c18" => c18::run(&out, seed, thorough),
+        "c19" => c19::run(&out, seed, thorough),
         "c20" => c20::run(&out, seed, thorough),
+        "envprobe" => c19::probe(&args),
         "simcheck" | "simcheck-worker" | "simprobe" | "simreplay" => simcheck::main(&cmd, &args, &out, seed, thorough),
-        _ => { eprintln!("usage: hx <reflect|cNN|simcheck|simprobe|simreplay> --out DIR [--seed N] [--tier quick|thorough]"); std::process::exit(2); }
+        _ => { eprintln!("usage: hx <reflect|cNN|simcheck|simprobe|simreplay|envprobe> --out DIR [--seed N] [--tier quick|thorough]"); std::process::exit(2); }
     };
     if let Err(e) = r { eprintln!("hx {}: error: {}", cmd, e); std::process::exit(3); }
 }
